@@ -38,6 +38,8 @@ def assignIncident (verts : List (Nat × Option DPt)) (cells : List Cell) : List
   verts.map (fun (id, pt) => { id := id, pt := pt, inc := (cells.find? (·.vs.contains id)).map (·.id) })
 
 def decode (doc : Doc) : Option Cx :=
+  -- two vertex records with the same uuid: rejected (duplicate vertex uuid)
+  if !(decide (doc.verts.map (·.1)).Nodup) then none else
   -- every cell needs a table entry, every listed vertex uuid must exist
   match doc.cells.mapM (fun cid => (doc.table.lookup cid).map (fun vs => (cid, vs))) with
   | none => none
